@@ -51,7 +51,7 @@ func populateTable(c *core.Ctx, l *lifecycleRoles) (rs rows, runs int, undecided
 			continue // only the factory's own functions: the populator and its helpers
 		}
 		for _, ci := range core.Calls(f) {
-			cal := ci.Common().StaticCallee()
+			cal := c.ResolvedCallee(ci.Common())
 			if cal == nil || !c.InScope(cal) || recvOf(cal) == popRecv {
 				continue
 			}
@@ -124,6 +124,19 @@ func populateTable(c *core.Ctx, l *lifecycleRoles) (rs rows, runs int, undecided
 				}
 				return true
 			}
+			popArgs := func(m *absint.Tok, nm string) []absint.Value {
+				return layoutArgs(pop, func(ty types.Type) absint.Value {
+					switch {
+					case core.NamedOf(ty) == meta:
+						return m
+					case isString(ty):
+						return absint.Str(nm)
+					case types.Identical(ty, pop.Signature.Recv().Type()):
+						return factory
+					}
+					return nil
+				})
+			}
 			t.callee[nameM] = func(ip *absint.Interp, a []absint.Value) absint.Value {
 				if m, ok := a[0].(*absint.Tok); ok && m.Attr["name"] != nil {
 					return m.Attr["name"]
@@ -158,14 +171,7 @@ func populateTable(c *core.Ctx, l *lifecycleRoles) (rs rows, runs int, undecided
 					}
 					if nested && depth == 0 && nm == `"d1"` {
 						depth++
-						args := []absint.Value{factory}
-						for _, p := range pop.Params[1:] {
-							if b, isB := p.Type().Underlying().(*types.Basic); isB && b.Info()&types.IsString != 0 {
-								args = append(args, absint.Str("d1"))
-							} else {
-								args = append(args, inner)
-							}
-						}
+						args := popArgs(inner, "d1")
 						ip.CallFunction(pop, args, nil)
 						depth--
 					}
@@ -203,14 +209,7 @@ func populateTable(c *core.Ctx, l *lifecycleRoles) (rs rows, runs int, undecided
 				}
 				return absint.Nil{}
 			}
-			args := []absint.Value{factory}
-			for _, p := range pop.Params[1:] {
-				if b, isB := p.Type().Underlying().(*types.Basic); isB && b.Info()&types.IsString != 0 {
-					args = append(args, absint.Str("holder"))
-				} else {
-					args = append(args, outer)
-				}
-			}
+			args := popArgs(outer, "holder")
 			return t, args, nil
 		}
 		check := func(ip *absint.Interp, out absint.Outcome) {
